@@ -366,28 +366,8 @@ Definition opt_tail (total sx : N) (r : list N) : N * list N :=
   | None => (0, r)
   end.
 
-Definition read_section (fuel : nat) (total sx : N) (file : list N) (xoff : N) : section + N :=
-  let s := at_off file xoff in
-  match expect k_xref s with
-  | Some r0 =>
-      match eol (match r0 with 32 :: t => t | _ => r0 end) with
-      | None => inr 3
-      | Some r1 =>
-          match xref_subsections fuel r1 [] with
-          | None => inr 3
-          | Some (ents, r2) =>
-              match parse_obj fuel r2 with
-              | Some (SpDict d, r3) =>
-                  if has_dup_keys d then inr 17 else
-                  let (v, r4) := opt_tail total sx r3 in
-                  inl {| sec_entries := ents; sec_dict := d; sec_is_stream := false;
-                         sec_region := (xoff, offset_of total r4); sec_tail_value := v; sec_obj := None |}
-              | _ => inr 4
-              end
-          end
-      end
-  | None =>
-      match parse_indirect fuel total file xoff (fun _ => None) with
+Definition read_xstream (fuel : nat) (total sx : N) (file : list N) (xoff : N) : section + N :=
+  match parse_indirect fuel total file xoff (fun _ => None) with
       | inr e => inr (if e =? 6 then 3 else e)
       | inl None => inr 5
       | inl (Some o) =>
@@ -422,7 +402,48 @@ Definition read_section (fuel : nat) (total sx : N) (file : list N) (xoff : N) :
               end
           | _, _ => inr 5
           end
+      end.
+
+Definition read_section (fuel : nat) (total sx : N) (file : list N) (xoff : N) : section + N :=
+  let s := at_off file xoff in
+  match expect k_xref s with
+  | Some r0 =>
+      match eol (match r0 with 32 :: t => t | _ => r0 end) with
+      | None => inr 3
+      | Some r1 =>
+          match xref_subsections fuel r1 [] with
+          | None => inr 3
+          | Some (ents, r2) =>
+              match parse_obj fuel r2 with
+              | Some (SpDict d, r3) =>
+                  if has_dup_keys d then inr 17 else
+                  let (v, r4) := opt_tail total sx r3 in
+                  (* 7.5.8.4 hybrid-reference file: the stream named by /XRefStm is consulted for objects that
+                     the table does not list as in use (hidden objects are listed free in the table) *)
+                  match dict_get d [88; 82; 101; 102; 83; 116; 109] with
+                  | Some (SpInt so) =>
+                      if (so <? 0)%Z then inr 5 else
+                      match read_xstream fuel total sx file (Z.to_N so) with
+                      | inr e => inr e
+                      | inl xs =>
+                          let stm := sec_entries xs in
+                          let in_stm := fun n => existsb (fun ke => fst ke =? n) stm in
+                          let in_use := fun n => existsb (fun ke => (fst ke =? n) && match snd ke with XInUse _ _ => true | _ => false end) ents in
+                          let tbl := filter (fun ke => negb (match snd ke with XFree _ _ => in_stm (fst ke) | _ => false end)) ents in
+                          let extra := filter (fun ke => negb (in_use (fst ke))) stm in
+                          inl {| sec_entries := tbl ++ extra; sec_dict := d; sec_is_stream := false;
+                                 sec_region := (xoff, offset_of total r4); sec_tail_value := v; sec_obj := None |}
+                      end
+                  | Some _ => inr 5
+                  | None =>
+                  inl {| sec_entries := ents; sec_dict := d; sec_is_stream := false;
+                         sec_region := (xoff, offset_of total r4); sec_tail_value := v; sec_obj := None |}
+                  end
+              | _ => inr 4
+              end
+          end
       end
+  | None => read_xstream fuel total sx file xoff
   end.
 
 Fixpoint lookup_x (n : N) (l : list (N * xentry)) : option xentry :=
@@ -639,6 +660,27 @@ Definition read_strict (file : list N) : rs_result :=
                       match step2 with
                       | inr (e, o) => RsErr e o
                       | inl cobjs =>
+                          (* bodies superseded by an incremental update stay in the file: every in-use entry of every
+                             section, not only the newest per object, accounts for the bytes of the object it points at *)
+                          let old_regions :=
+                              flat_map (fun s =>
+                                flat_map (fun ke =>
+                                  match snd ke with
+                                  | XInUse off gen =>
+                                      match lookup_x (fst ke) xr with
+                                      | Some (XInUse off' _) => if off' =? off then [] else
+                                          match parse_indirect fuel total file off (fun _ => None) with
+                                          | inl (Some o) => [(off, so_end o)]
+                                          | _ => []
+                                          end
+                                      | _ =>
+                                          match parse_indirect fuel total file off (fun _ => None) with
+                                          | inl (Some o) => [(off, so_end o)]
+                                          | _ => []
+                                          end
+                                      end
+                                  | _ => []
+                                  end) (sec_entries s)) secs in
                           let d := sec_dict newest in
                           match get_int d n_Size with
                           | None => RsErr 11 xoff
@@ -654,7 +696,7 @@ Definition read_strict (file : list N) : rs_result :=
                                                               (filter (fun o => negb (existsb (fun s => match sec_obj s with
                                                                                                         | Some x => so_num x =? so_num o
                                                                                                         | None => false end) secs)) objs) in
-                                      let regions := sort_regions ((0, hdr_end) :: (sx, total) :: map sec_region secs ++ body_regions) in
+                                      let regions := sort_regions ((0, hdr_end) :: (sx, total) :: map sec_region secs ++ body_regions ++ old_regions) in
                                       match regions_ok file 0 regions total with
                                       | Some bad => RsErr 15 bad
                                       | None =>
@@ -669,7 +711,7 @@ Definition read_strict (file : list N) : rs_result :=
                                                           (filter (fun o => negb (existsb (fun s => match sec_obj s with
                                                                                                     | Some x => so_num x =? so_num o
                                                                                                     | None => false end) secs)) objs) in
-                                  let regions := sort_regions ((0, hdr_end) :: (sx, total) :: map sec_region secs ++ body_regions) in
+                                  let regions := sort_regions ((0, hdr_end) :: (sx, total) :: map sec_region secs ++ body_regions ++ old_regions) in
                                   match regions_ok file 0 regions total with
                                   | Some bad => RsErr 15 bad
                                   | None =>
